@@ -3263,8 +3263,8 @@ func (m *Machine) SetSchema(newSchema Schema, names S) error {
 		m.schemaMx.Unlock()
 		return err
 	}
-	// TODO is this safe?
-	m.subs.SetClock(m.Clock(nil))
+	// the subscriptions share the machine's clock (a copy would stop moving)
+	m.subs.SetClock(m.clock)
 	m.schemaMx.Unlock()
 
 	// notify the resolver and tracers
